@@ -19,6 +19,8 @@ def main():
     a = ap.parse_args()
     seed = int(os.environ.get("VERIF_SEED", "0"))
     t0 = time.time()
+    if a.tier == "thorough":
+        os.environ.setdefault("VERIF_XCHECK", "1")
     from symnp import proxy, drive, report
     mod = importlib.import_module(f"harness.{a.prop.lower()}")
     proxy.install()
